@@ -42,8 +42,10 @@ def gen_case(seed):
             inp = rng.random() < 0.6
             convs = [[v, us[i], inp or rng.random() < 0.4, rng.random() < 0.7] for i in range(n)]
         else:
-            inp = rng.random() < 0.6
-            convs = [[v if i == 0 else 'prev', us[i], inp or rng.random() < 0.5, rng.random() < 0.7] for i in range(n)]
+            # directions along the lineage: all inputs, all outputs (an output of an output of ...), alternating, random
+            dirs = rng.choice([[True] * n, [False] * n, [i % 2 == 0 for i in range(n)], [i % 2 == 1 for i in range(n)],
+                               [rng.random() < 0.5 for _ in range(n)]])
+            convs = [[v if i == 0 else 'prev', us[i], dirs[i], rng.random() < 0.7] for i in range(n)]
     return {'seed': seed, 'spec': spec, 'convs': convs}
 
 
